@@ -16,6 +16,7 @@ exercises the transition first-chunk -> loop-chunk -> loop-chunk -> last-chunk):
       follows the last batch and ends at bound n_chunks (given batch_size * L < n_chunks <= batch_size * (L + 1))
   S3  _get_chunk_bounds: after every part the last bound equals the running total, bounds start at 0 and the
       regular grid inside a part has step chunk_size
+  +   on every path the last kept part reaches n_samples under the comparisons decided on that path (an early return after the first chunk is caught)
 Not decided: mtscomp's own chunk table and decoder; gaps for particular residues; strictness of increase.
 """
 import ast
@@ -40,6 +41,24 @@ ASSUMPTIONS = ['chunk_size > 0 and 0 <= overlap < chunk_size', 'n_excerpts >= 2,
 
 def yields_of(st):
     return [e[1] for e in st.trace if e[0] == 'yield']
+
+
+def _path_facts(st, nf):
+    """the comparisons decided on a path as forms known to be >= 0 (integers: a < b gives b - a - 1 >= 0)"""
+    extra = []
+    for key, rel_ in st.facts.items():
+        if isinstance(key, tuple) and key and key[0] == 'rel' and rel_ in ('<', '=', '>'):
+            try:
+                dl = nf(key[2]) - nf(key[1])          # b - a
+            except Exception:
+                continue
+            if rel_ == '<':
+                extra.extend([dl - Lin.const(1), dl])          # the weak form too: the sign rules decompose a sum into known forms syntactically
+            elif rel_ == '>':
+                extra.extend([-dl - Lin.const(1), -dl])
+            else:
+                extra.extend([dl, -dl])
+    return extra
 
 
 def s1_chunk_bounds(ctx):
@@ -92,19 +111,7 @@ def s1_chunk_bounds(ctx):
                 probs.setdefault('chunk %d has length %s, which exceeds chunk_size for some overlap' % (j, e - s), 1)
             elif sg is None and last_form:
                 # the chunk after the loop: its length is bounded only through the loop's EXIT condition - the comparisons decided on this path are the assumptions
-                extra = []
-                for key, rel_ in st.facts.items():
-                    if isinstance(key, tuple) and key and key[0] == 'rel' and rel_ in ('<', '=', '>'):
-                        try:
-                            dl = nf(key[2]) - nf(key[1])          # b - a
-                        except Exception:
-                            continue
-                        if rel_ == '<':
-                            extra.append(dl - Lin.const(1))
-                        elif rel_ == '>':
-                            extra.append(-dl - Lin.const(1))
-                        else:
-                            extra.extend([dl, -dl])
+                extra = _path_facts(st, nf)
                 saved = list(I.nonneg)
                 I.nonneg = saved + extra
                 try:
@@ -137,6 +144,19 @@ def s1_chunk_bounds(ctx):
         s, e, k, ke = tup[-1]
         if equal(e, N) and not equal(ke, N):
             probs.setdefault('the last chunk ends at n_samples but keeps only up to %s' % ke, 1)
+        # on EVERY path the kept parts reach the end of the data: keep_end of the last yielded chunk >= n_samples under the comparisons decided on this path
+        if not equal(ke, N):
+            extra = _path_facts(st, nf)
+            saved = list(I.nonneg)
+            I.nonneg = saved + extra
+            try:
+                reaches = I.ge0(ke - N)
+            finally:
+                I.nonneg = saved
+            if not reaches and I.interpreted(ke - N) and all(I.interpreted(x) for x in extra):
+                probs.setdefault('on a path the last kept part ends at %s, which is below n_samples for some inputs allowed by the tests taken on that path: the samples after it are in no kept part' % ke, 1)
+            elif not reaches:
+                und.setdefault('end of the last kept part (%s) not comparable with n_samples' % ke, 1)
         post = [st2 for st2 in [st] if True]
     # the statement after the loop must yield a chunk ending at n_samples on the path where it yields
     finals = [tuple(yields_of(st)[-1:]) for kind, val, st in outs if kind == 'return']
